@@ -816,7 +816,8 @@ static void wcoll_expand (opt_t *opt)
      */
     opt->wcoll = hostlist_create ("");
     while ((hosts = hostlist_shift (hl))) {
-        hostlist_push (opt->wcoll, hosts);
+        if (hostlist_push (opt->wcoll, hosts) == 0)
+            errx ("%p: invalid host expression \"%s\"\n", hosts);
         free (hosts);
     }
 
@@ -1407,7 +1408,8 @@ static int wcoll_arg_process (char *arg, opt_t *opt)
             if (user && strlen (user) > login_name_max_len ())
                 errx ("%p: Fatal: username '%s' exceeds max username length (%d)\n",
                       user, login_name_max_len ());
-            hostlist_push (opt->wcoll, hosts);
+            if (hostlist_push (opt->wcoll, hosts) == 0 && *hosts != '\0')
+                errx ("%p: invalid host expression \"%s\"\n", hosts);
             if (rcmd_type || user) {
                 if (rcmd_register_defaults (hosts, rcmd_type, user) < 0)
                     errx ("%p: Failed to register rcmd \"%s\" for \"%s\"\n",
